@@ -284,13 +284,17 @@ pub struct Scenario {
     /// generator's notes, not interpreted by the worker
     #[serde(default)]
     pub notes: Vec<String>,
+    /// C19: the real observer serves the observation socket and the harness reads it after every
+    /// BMCA round, a third of a BMCA interval later, and at these extra instants
+    #[serde(default)]
+    pub observe_ms: Option<Vec<u64>>,
 }
 
 impl Scenario {
     pub fn bmca_interval_ns(&self) -> u64 {
         self.daemon.ports.iter().map(|p| p.announce_ns()).min().unwrap_or(1_000_000_000)
     }
-    pub fn config_toml(&self) -> String {
+    pub fn config_toml(&self, observation_path: Option<&std::path::Path>) -> String {
         let d = &self.daemon;
         let mut s = String::new();
         s.push_str(&format!("loglevel = \"{}\"\n", d.loglevel));
@@ -313,8 +317,13 @@ impl Scenario {
                 s.push_str("master-only = true\n");
             }
         }
-        // no [observability] section: observation-path stays unset, the real observer task
-        // returns at once and never creates a socket
+        match observation_path {
+            // C19: the real observer binds this path - through the tokio facade, in memory
+            Some(p) => s.push_str(&format!("\n[observability]\nobservation-path = \"{}\"\n", p.display())),
+            // no [observability] section: observation-path stays unset, the real observer task
+            // returns at once and never creates a socket
+            None => {}
+        }
         s
     }
 }
@@ -602,6 +611,7 @@ pub fn gen_c15(ch: &mut Chooser, id: u64, tier: Tier) -> Scenario {
         tail: Tail::None,
         slave_port: sp,
         notes: vec![format!("bmca_interval_ms={}", bmca_ns / MS)],
+        observe_ms: None,
     }
 }
 
@@ -745,6 +755,121 @@ pub fn gen_c12(ch: &mut Chooser, id: u64, tier: Tier) -> Scenario {
         tail,
         slave_port: 0,
         notes: Vec::new(),
+        observe_ms: None,
+    }
+}
+
+/// C19: what the real daemon publishes for observation. 1-3 ports, masters that appear, disappear,
+/// degrade their announced quality below the daemon's own (the BMCA itself takes the slave role
+/// away) or are outbid by a better master on another port (the slave role moves), with Sync /
+/// Follow_Up / Delay traffic so that the slave port's filter has a non-zero estimate.
+pub fn gen_c19(ch: &mut Chooser, id: u64, tier: Tier) -> Scenario {
+    let n = 1 + ch.weighted(S_CFG, &[2, 3, 2]);
+    let mut ports = gen_ports(ch, n, true, false);
+    for p in ports.iter_mut() {
+        p.p2p = ch.chance(S_CFG, 1, 5);
+    }
+    let path_trace = ch.chance(S_CFG, 1, 4);
+    let daemon = gen_daemon(ch, ports, path_trace);
+    let mut clock = gen_clock(ch);
+    if clock.offset_ns == 0 {
+        clock.offset_ns = 37_000;
+    }
+    let seed = ch.bits(S_HOST);
+    let i_max = daemon.ports.iter().map(|p| p.announce_ns()).max().unwrap();
+
+    let mut peers = Vec::new();
+    // one master per port; the one on port 0 is usually there from the start
+    for (pi, p) in daemon.ports.iter().enumerate() {
+        if pi > 0 && ch.chance(S_CFG, 1, 4) {
+            continue;
+        }
+        let mut m = base_peer(&format!("master{pi}"), pi, 1 + pi as u8, p, ch.range(S_CFG, 10, 120) as u8);
+        m.two_step = ch.chance(S_CFG, 3, 4);
+        m.phase_us = ch.range(S_WORK, 0, p.announce_ns() / US - 1);
+        m.on_at_start = if pi == 0 { ch.chance(S_WORK, 4, 5) } else { ch.chance(S_WORK, 1, 3) };
+        m.gm.steps_removed = ch.weighted(S_CFG, &[3, 1, 1]) as u16;
+        m.clock_offset_ns = ch.irange(S_WORK, -20_000, 20_000);
+        if m.gm.steps_removed > 0 {
+            m.gm.identity = peer_id(0x80 + pi as u8);
+        }
+        if path_trace {
+            m.path = if m.gm.steps_removed > 0 { vec![m.gm.identity, m.clock_id] } else { vec![m.clock_id] };
+        }
+        peers.push(m);
+    }
+    // sometimes a second master on the slave's own segment (parent change on one port)
+    if ch.chance(S_CFG, 1, 3) {
+        let p = &daemon.ports[0];
+        let mut m = base_peer("rival0", 0, 0x11, p, ch.range(S_CFG, 10, 120) as u8);
+        m.phase_us = ch.range(S_WORK, 0, p.announce_ns() / US - 1);
+        m.on_at_start = false;
+        if path_trace {
+            m.path = vec![m.clock_id];
+        }
+        peers.push(m);
+    }
+
+    let len_iv = match tier {
+        Tier::Quick => ch.range(S_WORK, 20, 50),
+        Tier::Thorough => ch.range(S_WORK, 20, 90),
+    };
+    let len_ns = len_iv * i_max;
+    let nsteps = ch.range(S_WORK, 2, 10);
+    let mut steps = Vec::new();
+    for _ in 0..nsteps {
+        // not before the first master had time to become the parent and the filter to settle
+        let at_ms = ch.range(S_WORK, 6 * i_max / MS, len_ns / MS);
+        let peer = ch.choose(S_WORK, peers.len() as u64) as usize;
+        let op = match ch.weighted(S_WORK, &[3, 2, 4, 2]) {
+            0 => Op::PeerOn { peer },
+            1 => Op::PeerOff { peer },
+            // announced quality falls below (or stays above) the daemon's own priority1 128
+            2 => Op::SetPriority1 { peer, value: *ch.pick(S_WORK, &[200u8, 129, 250, 200]) },
+            _ => Op::SetPriority1 { peer, value: *ch.pick(S_WORK, &[5u8, 50, 100, 127]) },
+        };
+        steps.push(Step { at_ms, op });
+    }
+    steps.sort_by_key(|s| s.at_ms);
+
+    let mut faults = Vec::new();
+    let horizon = len_ns / daemon.ports.iter().map(|p| p.sync_ns().min(p.announce_ns())).min().unwrap();
+    for _ in 0..ch.weighted(S_FAULT, &[3, 2, 1, 1]) {
+        let kind = match ch.weighted(S_FAULT, &[3, 2, 1]) {
+            0 => FrameFault::Drop,
+            1 => FrameFault::Dup,
+            _ => FrameFault::DelayUs(ch.range(S_FAULT, 100, 50_000) as u32),
+        };
+        match ch.weighted(S_FAULT, &[2, 3]) {
+            0 => {
+                let port = ch.choose(S_FAULT, n as u64) as usize;
+                let eth = daemon.ports[port].mode == Mode::Ethernet;
+                let kindt = if ch.chance(S_FAULT, 3, 4) { TsFault::NoTimestamp } else { TsFault::LateMs(ch.range(S_FAULT, 1, 150) as u32) };
+                faults.push(Fault::TxTimestamp { port, sock: if eth { SockSel::Eth } else { SockSel::Event }, nth: ch.range(S_FAULT, 0, horizon * if eth { 3 } else { 1 }), kind: kindt });
+            }
+            _ => {
+                let peer = ch.choose(S_FAULT, peers.len() as u64) as usize;
+                let class = *ch.pick(S_FAULT, &[Class::Announce, Class::Sync, Class::FollowUp, Class::DelayResp]);
+                faults.push(Fault::ToDaemon { peer, class, nth: ch.range(S_FAULT, 0, horizon), kind });
+            }
+        }
+    }
+    let extra: Vec<u64> = (0..ch.range(S_WORK, 0, 6)).map(|_| ch.range(S_WORK, 0, len_ns / MS)).collect();
+    Scenario {
+        id,
+        property: "C19".into(),
+        seed,
+        daemon,
+        clock,
+        peers,
+        steps,
+        faults,
+        warmup_ms: 0,
+        end_ms: len_ns / MS,
+        tail: Tail::None,
+        slave_port: 0,
+        notes: Vec::new(),
+        observe_ms: Some(extra),
     }
 }
 
@@ -755,6 +880,7 @@ pub fn generate(property: &str, base_seed: u64, index: u64, tier: Tier) -> Scena
     match property {
         "C15" => gen_c15(&mut ch, index, tier),
         "C12" => gen_c12(&mut ch, index, tier),
+        "C19" => gen_c19(&mut ch, index, tier),
         _ => panic!("no daemon scenario family for {property}"),
     }
 }
